@@ -109,6 +109,10 @@ func genC04(t *rapid.T, r *Rec) C04Case {
 	var gen func(d int) []*S
 	gen = func(d int) []*S {
 		n := rapid.IntRange(1, 6).Draw(t, "nsegs")
+		if rapid.IntRange(0, 3).Draw(t, "manysegs") == 0 {
+			// longer node lists, at every nesting level (bodies of 7..18 segments)
+			n = rapid.IntRange(7, 18).Draw(t, "nsegs2")
+		}
 		var out []*S
 		for i := 0; i < n; i++ {
 			k := rapid.IntRange(0, 11).Draw(t, "segkind")
@@ -415,7 +419,7 @@ func c04NonTrivial(segs []*S) (bool, []string) {
 	return nt, cl
 }
 
-const c04Rule = "templates of 1-30 segments: literal text over all 256 byte values (boosted: braces, percent, hash, dash, backslash, quotes, CR/LF/TAB, NUL, bytes >= 0x80, multi-byte runes; 5% long runs; 1 in 6 templates padded beyond 4096 bytes so the second tokenizer runs), prints of context strings with known bytes, comments and verbatim bodies seeded with spies/includes/unbalanced tags, set, an always-true if and a 2-element for; constructed so that no text contains an opening delimiter or ends in '{' or '\\' before a tag (counted); non-trivial = text with a byte >= 0x80, NUL or a lone delimiter character, adjacent tags, or a comment/verbatim body containing tag syntax; distinct by source + values"
+const c04Rule = "templates of 1-30 segments (node lists of 1-18 entries at every nesting level): literal text over all 256 byte values (boosted: braces, percent, hash, dash, backslash, quotes, CR/LF/TAB, NUL, bytes >= 0x80, multi-byte runes; 5% long runs; 1 in 6 templates padded beyond 4096 bytes so the second tokenizer runs), prints of context strings with known bytes, comments and verbatim bodies seeded with spies/includes/unbalanced tags, set, an always-true if and a 2-element for; constructed so that no text contains an opening delimiter or ends in '{' or '\\' before a tag (counted); non-trivial = text with a byte >= 0x80, NUL or a lone delimiter character, adjacent tags, or a comment/verbatim body containing tag syntax; distinct by source + values"
 
 func TestC04Text(t *testing.T) {
 	r := NewRec(t, "C04", c04Rule)
